@@ -145,8 +145,12 @@ int main( int argc, char ** argv ) {
             do_read( hexdec( h ), st == "strict", true );
         } else if( cmd == "B" ) {
             std::string h;
+            int k = 0;
             while( ls >> h ) {
                 do_read( hexdec( h == "-" ? "" : h ), false, false );
+                if( ( ++k & 31 ) == 0 ) {
+                    fflush( g_out );    // the harness counts the answers it has got to locate an input that hangs or crashes
+                }
             }
         } else if( cmd == "WI" || cmd == "WR" ) {
             SDAI_Application_instance * se = fresh();
